@@ -106,11 +106,85 @@ type clientCase struct {
 	Inject *optSpec `json:"harness_injected_opt,omitempty"`
 	// Script: branch family only - what each branch's upstream does per qtype.
 	Script map[string]bScript `json:"branch_script,omitempty"`
+	// Additional: when non-nil, the client's additional section is exactly this
+	// record list (0..4 records: OPTs in any position mixed with other RRs).
+	// Opt then points at the single OPT of the list, or is nil when the list
+	// holds none or several (see clientOpts).
+	Additional []extraRec `json:"client_additional,omitempty"`
+}
+
+// extraRec is one record of a generated client additional section.
+type extraRec struct {
+	Opt  *optSpec `json:"opt,omitempty"`
+	Kind string   `json:"kind,omitempty"` // non-OPT record: a | txt | unknown
+}
+
+// clientOpts returns every OPT record the client put into its query.
+func (c *clientCase) clientOpts() []*optSpec {
+	if c.Additional != nil {
+		var out []*optSpec
+		for _, e := range c.Additional {
+			if e.Opt != nil {
+				out = append(out, e.Opt)
+			}
+		}
+		return out
+	}
+	if c.Opt != nil {
+		return []*optSpec{c.Opt}
+	}
+	return nil
+}
+
+// additionalShape renders the additional section as a string: O = OPT,
+// A / T / U = other record, "-" = empty.
+func (c *clientCase) additionalShape() string {
+	if c.Additional == nil {
+		switch {
+		case c.Opt != nil:
+			return "O"
+		case c.ExtraRR:
+			return "A"
+		}
+		return "-"
+	}
+	s := ""
+	for _, e := range c.Additional {
+		switch {
+		case e.Opt != nil:
+			s += "O"
+		case e.Kind == "txt":
+			s += "T"
+		case e.Kind == "unknown":
+			s += "U"
+		default:
+			s += "A"
+		}
+	}
+	if s == "" {
+		return "-"
+	}
+	return s
 }
 
 func (c *clientCase) queryBytes() []byte {
 	b := wire.NewBuilder(c.ID, c.Flags)
 	b.Question(wire.EncodeName(c.Name), c.Qtype, c.Qclass)
+	if c.Additional != nil {
+		for i, e := range c.Additional {
+			switch {
+			case e.Opt != nil:
+				e.Opt.appendTo(b)
+			case e.Kind == "txt":
+				b.RR(2, wire.EncodeName(fmt.Sprintf("extra%d.%s", i, c.Name)), 16, 1, 55, wire.TXTRdata("client additional"))
+			case e.Kind == "unknown":
+				b.RR(2, wire.EncodeName(fmt.Sprintf("extra%d.%s", i, c.Name)), 65280, 1, 55, []byte{1, 2, 3, byte(i)})
+			default:
+				b.RR(2, wire.EncodeName(fmt.Sprintf("extra%d.%s", i, c.Name)), 1, 1, 77, []byte{192, 0, 2, byte(70 + i)})
+			}
+		}
+		return b.Bytes()
+	}
 	if c.Opt != nil {
 		c.Opt.appendTo(b)
 	} else if c.ExtraRR {
@@ -656,6 +730,35 @@ func genCase(r *rand.Rand, ch *chainDesc, idx, phase int, names []string) *clien
 		u.Fail = []string{"error", "noresp", "timeout"}[r.Intn(3)]
 	}
 	return c
+}
+
+// genClientAdditional replaces the additional section of c by a generated
+// record list: 0..4 records, each an OPT (own size / DO / option list, so the
+// options of every OPT are distinguishable) or another RR, in any order.
+func genClientAdditional(r *rand.Rand, c *clientCase) {
+	n := []int{0, 1, 1, 2, 2, 2, 2, 3, 3, 3, 4}[r.Intn(11)]
+	c.Additional = []extraRec{}
+	c.ExtraRR = false
+	pOpt := []int{3, 5, 7, 10}[r.Intn(4)] // out of 10: from mostly other RRs to OPTs only
+	for i := 0; i < n; i++ {
+		if r.Intn(10) < pOpt {
+			o := genClientOpt(r)
+			for o == nil {
+				o = genClientOpt(r)
+			}
+			if len(o.Options) == 0 || r.Intn(2) == 0 {
+				// make sure most OPTs carry something recognisable
+				o.Options = append(o.Options, genOption(r, []uint16{10, 8, 12, 65001, 3}[r.Intn(5)], false))
+			}
+			c.Additional = append(c.Additional, extraRec{Opt: o})
+		} else {
+			c.Additional = append(c.Additional, extraRec{Kind: []string{"a", "a", "txt", "unknown"}[r.Intn(4)]})
+		}
+	}
+	c.Opt = nil
+	if o := c.clientOpts(); len(o) == 1 {
+		c.Opt = o[0]
+	}
 }
 
 func pickCodes(r *rand.Rand) []uint16 {
